@@ -33,3 +33,32 @@ pub mod serde_json {
         ensures (match r { Ok(v) => Some(v), Err(_) => None::<LSPAny> }) == value.jv()
     { unimplemented!() }
 }
+
+// ---- `Vec::sort_by_key` (slice method through DerefMut): `.sort_by_key(` is renamed to `.vp_sort_by_key(`, whose
+// external body IS the call to the real method.  ASSUMED (A3): the result is a rearrangement of the old contents
+// (`sort_key_perm` = a bijection of the index range, new[i] == old[perm[i]]) ordered by every key function the key
+// closure is shown to compute.  Stability is true of sort_by_key but not assumed.
+pub uninterp spec fn sort_key_perm<T>(old: Seq<T>, new: Seq<T>) -> Seq<int>;
+pub open spec fn key_models<T, F: FnMut(&T) -> u32>(f: F, k: spec_fn(T) -> u32) -> bool {
+    forall|a: &T, o: u32| #[trigger] call_ensures(f, (a,), o) ==> o == k(*a)
+}
+pub open spec fn sorted_by_key<T>(s: Seq<T>, k: spec_fn(T) -> u32) -> bool {
+    forall|i: int, j: int| 0 <= i < j < s.len() ==> k(#[trigger] s[i]) <= k(#[trigger] s[j])
+}
+pub open spec fn is_perm_idx(p: Seq<int>, n: int) -> bool {
+    p.len() == n && p.no_duplicates() && forall|i: int| 0 <= i < n ==> 0 <= #[trigger] p[i] < n
+}
+pub trait VpSortByKey<T> {
+    fn vp_sort_by_key<F: FnMut(&T) -> u32>(&mut self, f: F)
+        requires forall|a: &T| #[trigger] call_requires(f, (a,));
+}
+impl<T> VpSortByKey<T> for Vec<T> {
+    #[verifier::external_body]
+    fn vp_sort_by_key<F: FnMut(&T) -> u32>(&mut self, f: F)
+        ensures
+            final(self)@.len() == old(self)@.len(),
+            is_perm_idx(sort_key_perm(old(self)@, final(self)@), old(self)@.len() as int),
+            forall|i: int| 0 <= i < final(self)@.len() ==> #[trigger] final(self)@[i] == old(self)@[sort_key_perm(old(self)@, final(self)@)[i]],
+            forall|k: spec_fn(T) -> u32| key_models(f, k) ==> #[trigger] sorted_by_key(final(self)@, k),
+    { self.sort_by_key(f) }
+}
